@@ -67,9 +67,16 @@ func c20Key(label string) *btcec.PrivateKey {
 }
 
 func c20Pub(k *btcec.PrivateKey) (out [33]byte) {
+	if v, ok := c20PubMemo.Load(k); ok {
+		return v.([33]byte)
+	}
 	copy(out[:], k.PubKey().SerializeCompressed())
+	c20PubMemo.Store(k, out)
 	return out
 }
+
+// c20PubMemo: the key material is fixed (package-level private keys, never mutated).
+var c20PubMemo sync.Map
 
 var (
 	c20Self = c20Key("self")
@@ -405,7 +412,7 @@ func c20SQLTemplate() ([]byte, error) {
 // the world
 
 const (
-	c20StepSleep    = 20 * time.Second       // virtual time allowed for one message to settle
+	c20StepSleep = 20 * time.Second // virtual time allowed for one message to settle
 	// The batch schedulers of the graph store commit lazily through a timer. With
 	// lnd's production interval (500 ms) a bubble freezes whenever two held updates
 	// of one channel are replayed concurrently: the first holds the gossiper's
